@@ -225,36 +225,63 @@ theorem openStore_no_roots (g : Bytes) (hne : g.length ≠ 0)
   unfold openStore
   rw [if_neg hne, (scan_no_roots g h).1]
 
-/-- `FlushRevert` from a store positioned at the valid end `st.size = E` goes to the greatest
-    valid end `E'` strictly below it and truncates the file there. -/
+/-- `FlushRevert`: `E` is the end of the most recent root record at or below `st.size` (after a
+    failed Flush `st.size` may lie beyond it); the store goes to the greatest valid end `E'`
+    strictly below `E` and the file is truncated there. -/
 theorem revertStore_prev (st : Store) (fid : Nat) (f : Bytes) (cmpOf : Bytes → CmpKind)
+    (E : Nat) (rootsE : List (Bytes × Option Ploc))
+    (hcur : rootAt f E = some rootsE) (hEle : E ≤ st.size)
+    (habove : ∀ e', E < e' → e' ≤ st.size → rootAt f e' = none)
     (E' : Nat) (roots' : List (Bytes × Option Ploc))
-    (hE : rootsLen < st.size) (hlt : E' < st.size) (hr : rootAt f E' = some roots')
-    (hbetween : ∀ e', E' < e' → e' < st.size → rootAt f e' = none) :
+    (hlt : E' < E) (hr : rootAt f E' = some roots')
+    (hbetween : ∀ e', E' < e' → e' < E → rootAt f e' = none) :
     revertStore st fid f cmpOf =
       match loadColls f cmpOf roots' with
       | some cs => some ({ st with size := E', colls := cs, file := some fid },
                          if st.readOnly then f else f.take E')
       | none => none := by
+  have hE : rootsLen < E := (rootAt_le_length f E rootsE hcur).2
+  have hgt : E > rootsLen := hE
   unfold revertStore
-  have hgt : st.size > rootsLen := hE
+  rw [scanRoots_complete f true st.size E rootsE hEle hcur habove]
   simp only [if_pos hgt]
-  rw [scanRoots_revert f st.size E' roots' hE hlt hr hbetween]
+  rw [scanRoots_revert f E E' roots' hE hlt hr hbetween]
   rfl
 
-/-- `FlushRevert` with no valid end below the current one empties the store. -/
+/-- the case C08 is about: `size` is exactly the end of the most recent root record -/
+theorem revertStore_prev_at_end (st : Store) (fid : Nat) (f : Bytes) (cmpOf : Bytes → CmpKind)
+    (rootsE : List (Bytes × Option Ploc)) (hcur : rootAt f st.size = some rootsE)
+    (E' : Nat) (roots' : List (Bytes × Option Ploc))
+    (hlt : E' < st.size) (hr : rootAt f E' = some roots')
+    (hbetween : ∀ e', E' < e' → e' < st.size → rootAt f e' = none) :
+    revertStore st fid f cmpOf =
+      match loadColls f cmpOf roots' with
+      | some cs => some ({ st with size := E', colls := cs, file := some fid },
+                         if st.readOnly then f else f.take E')
+      | none => none :=
+  revertStore_prev st fid f cmpOf st.size rootsE hcur (Nat.le_refl _)
+    (fun e' h1 h2 => by omega) E' roots' hlt hr hbetween
+
+/-- `FlushRevert` empties the store when there is no valid root end at or below `st.size`, or
+    when the most recent one `E` has no valid end strictly below it. -/
 theorem revertStore_none (st : Store) (fid : Nat) (f : Bytes) (cmpOf : Bytes → CmpKind)
-    (h : ∀ e', e' < st.size → rootAt f e' = none) :
+    (h : (∀ e', e' ≤ st.size → rootAt f e' = none) ∨
+         (∃ E rootsE, rootAt f E = some rootsE ∧ E ≤ st.size ∧
+            (∀ e', E < e' → e' ≤ st.size → rootAt f e' = none) ∧
+            ∀ e', e' < E → rootAt f e' = none)) :
     revertStore st fid f cmpOf =
       some ({ st with size := 0, colls := [], file := some fid },
             if st.readOnly then f else []) := by
   unfold revertStore
-  by_cases hgt : st.size > rootsLen
-  · simp only [if_pos hgt]
-    rw [scanRoots_none_iff f true (st.size - 1) (fun e' he => h e' (by omega))]
+  rcases h with h | ⟨E, rootsE, hcur, hEle, habove, hbelow⟩
+  · rw [scanRoots_none_iff f true st.size h]
+    have hng : ¬ (0 > rootsLen) := by omega
+    simp only [if_true, if_neg hng]
     rfl
-  · simp only [if_neg hgt]
-    rw [scanRoots_small f true st.size (by omega)]
+  · have hgt : E > rootsLen := (rootAt_le_length f E rootsE hcur).2
+    rw [scanRoots_complete f true st.size E rootsE hEle hcur habove]
+    simp only [if_pos hgt]
+    rw [scanRoots_none_iff f true (E - 1) (fun e' he => hbelow e' (by omega))]
     rfl
 
 #print axioms readAt_take
@@ -271,6 +298,7 @@ theorem revertStore_none (st : Store) (fid : Nat) (f : Bytes) (cmpOf : Bytes →
 #print axioms openStore_crash_atomic
 #print axioms openStore_no_roots
 #print axioms revertStore_prev
+#print axioms revertStore_prev_at_end
 #print axioms revertStore_none
 end Gkv
 
@@ -291,5 +319,6 @@ end Gkv
 'Gkv.openStore_crash_atomic' depends on axioms: [propext, Classical.choice, Quot.sound]
 'Gkv.openStore_no_roots' depends on axioms: [propext, Quot.sound]
 'Gkv.revertStore_prev' depends on axioms: [propext, Classical.choice, Quot.sound]
-'Gkv.revertStore_none' depends on axioms: [propext, Quot.sound]
+'Gkv.revertStore_prev_at_end' depends on axioms: [propext, Classical.choice, Quot.sound]
+'Gkv.revertStore_none' depends on axioms: [propext, Classical.choice, Quot.sound]
 -/
